@@ -209,3 +209,88 @@ func Size(n Node) int {
 	Walk(n, func(Node) bool { c++; return true })
 	return c
 }
+
+// Denotable checks the structural side conditions under which the documented
+// grammar can write a tree (generator self-check).
+func Denotable(n Node) string {
+	bad := ""
+	var visit func(n Node, inBlock bool)
+	visit = func(n Node, inBlock bool) {
+		if bad != "" || n == nil {
+			return
+		}
+		exprOnly := func(x Node, where string) {
+			if !IsExpr(x) {
+				bad = where + " is not an expression: " + Sexp(x)
+			}
+			visit(x, false)
+		}
+		switch x := n.(type) {
+		case Block:
+			if inBlock {
+				bad = "block directly inside block"
+				return
+			}
+			if len(x.Stmts) < 2 {
+				bad = "block with fewer than two statements"
+				return
+			}
+			for _, s := range x.Stmts {
+				visit(s, true)
+			}
+		case IntLit:
+			if x.V < 0 {
+				bad = "negative integer literal"
+			}
+		case FloatLit:
+			if x.V < 0 {
+				bad = "negative float literal"
+			}
+		case Unary:
+			exprOnly(x.X, "unary operand")
+		case Binary:
+			exprOnly(x.L, "left operand")
+			exprOnly(x.R, "right operand")
+		case Index:
+			exprOnly(x.X, "indexed value")
+			exprOnly(x.I, "index")
+		case Slice:
+			exprOnly(x.X, "sliced value")
+			exprOnly(x.I, "slice bound")
+			exprOnly(x.J, "slice bound")
+		case ArrayLit:
+			for _, e := range x.Elems {
+				exprOnly(e, "array element")
+			}
+		case Call:
+			for _, e := range x.Args {
+				exprOnly(e, "argument")
+			}
+		case FuncLit:
+			visit(x.Body, false)
+		case Assign:
+			exprOnly(x.Value, "assigned value")
+		case If:
+			exprOnly(x.Cond, "condition")
+			visit(x.Then, false)
+			visit(x.Else, false)
+		case While:
+			exprOnly(x.Cond, "condition")
+			visit(x.Body, false)
+		case For:
+			if len(x.Vars) != len(x.Iters) || len(x.Vars) == 0 {
+				bad = "for with mismatching variables/iterators"
+			}
+			for _, e := range x.Iters {
+				exprOnly(e, "iterator")
+			}
+			visit(x.Body, false)
+		case Return:
+			exprOnly(x.X, "returned value")
+		case Yield:
+			exprOnly(x.X, "yielded value")
+		}
+	}
+	visit(n, false)
+	return bad
+}
